@@ -289,3 +289,125 @@ Example c20_nonvacuous :
   (let t := mkT (-631152000) 500000000 3600 in
      to_datetime64 t 0 = -631152000 /\ datetime64_Time 3600 (to_datetime64 t 0) 0 = mkT (-631152000) 0 3600).
 Proof. vm_compute. repeat split; reflexivity. Qed.
+
+(* ================================================================================================
+   THE TIE TO THE SOURCE.  gen/ScalFuns.v is written on every run by translator/minigo.go from the Go
+   source of /repo/proto (date.go date32.go datetime.go datetime64.go int128.go int256.go ipv4.go ipv6.go
+   col_interval.go): one [go_<Name>] per function, every arithmetic result wrapped to the width
+   and signedness of its Go type, / and % as Z.quot / Z.rem, Go's panics as [None].  Each translated
+   function IS the hand model the theorems above are stated over (or, for the three functions without a
+   hand model, has the stated specification).  Premises: only the Go type of a parameter where the
+   translation converts it (DateTime is a uint32, DateTime64 an int64).  The twelfth conjunct is the fuel
+   of the one loop (Precision.Scale): more fuel than the translator gives never changes the result. *)
+From CH Require Import gen.ScalFuns proofs.ScalFunsProofs.
+
+Theorem scalar_model_is_source :
+  (forall d, go_Date_Unix d = date_Unix d) /\
+  (forall loc d, go_Date_Time loc d = date_Time d) /\
+  (forall t, go_ToDate t = to_date t) /\
+  (forall y m d, go_NewDate y m d = to_date (go_Date y m d 0 0 0 0 0)) /\
+  (forall d, go_Date32_Unix d = date32_Unix d) /\
+  (forall loc d, go_Date32_Time loc d = date32_Time d) /\
+  (forall t, go_ToDate32 t = to_date32 t) /\
+  (forall y m d, go_NewDate32 y m d = to_date32 (go_Date y m d 0 0 0 0 0)) /\
+  (forall t, go_ToDateTime t = to_datetime t) /\
+  (forall loc d, 0 <= d < two32 -> go_DateTime_Time loc d = datetime_Time loc d) /\
+  (forall p, go_Precision_Scale p = precision_Scale p) /\
+  (forall k p, 0 <= p -> go_Precision_Scale_for1 (Z.to_nat PrecisionNano + k) p PrecisionNano 1 =
+                         go_Precision_Scale_for1 (Z.to_nat PrecisionNano) p PrecisionNano 1) /\
+  (forall p, go_Precision_Duration p = precision_Scale p) /\
+  (forall p, go_Precision_Valid p = precision_Valid p) /\
+  (forall t p, go_ToDateTime64 t p = Some (to_datetime64 t p)) /\
+  (forall loc d p, in_i64z d -> go_DateTime64_Time loc d p = Some (datetime64_Time loc d p)) /\
+  (forall i, go_Int128_Int i = int128_Int i) /\
+  (forall i, go_Int128_UInt64 i = int128_UInt64 i) /\
+  (forall v, go_Int128FromInt v = int128_FromInt v) /\
+  (forall v, go_Int128FromUInt64 v = int128_FromUInt64 v) /\
+  (forall i, go_UInt128_UInt64 i = uint128_UInt64 i) /\
+  (forall i, go_UInt128_Int i = uint128_Int i) /\
+  (forall v, go_UInt128FromInt v = uint128_FromInt v) /\
+  (forall v, go_UInt128FromUInt64 v = uint128_FromUInt64 v) /\
+  (forall v, go_Int256FromInt v = int256_FromInt v) /\
+  (forall v, go_UInt256FromInt v = uint256_FromInt v) /\
+  (forall v, go_UInt256FromUInt64 v = uint256_FromUInt64 v) /\
+  (forall v, go_IPv4_ToIP v = ipv4_ToIP v) /\
+  (forall ip, go_ToIPv4 ip = to_IPv4 ip) /\
+  (forall v, go_IPv6_ToIP v = ipv6_ToIP v) /\
+  (forall ip, go_ToIPv6 ip = to_IPv6 ip) /\
+  (forall scale value t, go_Interval_Add (mk_go_Interval scale value) t = interval_Add scale value t).
+Proof. exact scalar_tie_holds. Qed.
+Print Assumptions scalar_model_is_source.
+
+(* ---- main theorems restated directly over the translated source ---- *)
+Theorem source_date32_roundtrip : forall loc t,
+  t_IsZero t = false -> - two31 <= local_day t < two31 ->
+  go_ToDate32 t = local_day t /\
+  go_Date32_Time loc (go_ToDate32 t) = mkT (86400 * local_day t) 0 0 /\
+  t_Date (go_Date32_Time loc (go_ToDate32 t)) = t_Date t /\
+  0 <= local_sec t - unix (go_Date32_Time loc (go_ToDate32 t)) < 86400.
+Proof. exact go_date32_rt. Qed.
+Print Assumptions source_date32_roundtrip.
+
+(* neither conversion panics (divides by zero) and the round trip is the one of [datetime64_roundtrip] *)
+Theorem source_datetime64_roundtrip : forall loc p t,
+  0 <= p <= 9 -> wf_time t -> t_IsZero t = false -> in_i64z (ticks_of t p) ->
+  exists v b, go_ToDateTime64 t p = Some v /\ v = ticks_of t p /\
+              go_DateTime64_Time loc v p = Some b /\
+              unix b = unix t /\ nsec b = nsec t - nsec t mod go_Precision_Scale p /\ zoff b = loc.
+Proof. exact go_datetime64_rt. Qed.
+Print Assumptions source_datetime64_roundtrip.
+
+Theorem source_interval_add_seconds_minutes_hours : forall scale unit_ns v t,
+  In (scale, unit_ns) [(IntervalSecond, dur_Second); (IntervalMinute, dur_Minute); (IntervalHour, dur_Hour)] ->
+  wf_time t -> - two61 <= unix t <= two61 -> in_i64z (unit_ns * v) ->
+  exists t', go_Interval_Add (mk_go_Interval scale v) t = Some t' /\
+             wf_time t' /\ total_ns t' = total_ns t + v * unit_ns /\ zoff t' = zoff t.
+Proof. exact go_interval_add_clock_units. Qed.
+Print Assumptions source_interval_add_seconds_minutes_hours.
+
+Theorem source_interval_add_day : forall v t,
+  wf_time t -> sane t -> - two31z <= v <= two31z ->
+  go_Interval_Add (mk_go_Interval IntervalDay v) t = Some (mkT (unix t + v * 86400) (nsec t) (zoff t)).
+Proof. exact go_interval_add_days. Qed.
+Print Assumptions source_interval_add_day.
+
+Theorem source_interval_add_month : forall v t,
+  wf_time t -> sane t -> - two31z <= v <= two31z ->
+  let '(y, m, d) := t_Date t in
+  let y2 := y + (m - 1 + v) / 12 in
+  let m2 := (m - 1 + v) mod 12 + 1 in
+  exists t', go_Interval_Add (mk_go_Interval IntervalMonth v) t = Some t' /\
+    nsec t' = nsec t /\ zoff t' = zoff t /\ t_Clock t' = t_Clock t /\
+    local_day t' = days_from_civil y2 m2 1 + (d - 1) /\
+    (d <= days_in_month y2 m2 -> t_Date t' = (y2, m2, d)).
+Proof. exact go_interval_add_months. Qed.
+Print Assumptions source_interval_add_month.
+
+(* the known finding (interval-quarter-four-months), about the translated source itself *)
+Theorem source_interval_add_quarter_refuted :
+  exists v t, wf_time t /\ sane t /\ - 715827882 <= v <= 715827882 /\
+    go_Interval_Add (mk_go_Interval IntervalQuarter v) t = Some (mkT 1589536800 0 0) /\
+    go_Interval_Add (mk_go_Interval IntervalMonth (3 * v)) t = Some (mkT 1586944800 0 0) /\
+    t_Date t = (2020, 1, 15) /\ t_Date (mkT 1589536800 0 0) = (2020, 5, 15) /\
+    t_Date (mkT 1586944800 0 0) = (2020, 4, 15) /\
+    go_Interval_Add (mk_go_Interval IntervalQuarter v) t <> go_Interval_Add (mk_go_Interval IntervalMonth (3 * v)) t.
+Proof. exact go_interval_add_quarters_refuted. Qed.
+Print Assumptions source_interval_add_quarter_refuted.
+
+Theorem source_interval_add_quarter_as_implemented : forall v t,
+  - 536870912 <= v <= 536870912 ->
+  go_Interval_Add (mk_go_Interval IntervalQuarter v) t = go_Interval_Add (mk_go_Interval IntervalMonth (4 * v)) t.
+Proof. exact go_interval_add_quarters_impl. Qed.
+Print Assumptions source_interval_add_quarter_as_implemented.
+
+(* non-vacuity of the tie: the translated functions compute, on the instants of [c20_nonvacuous] *)
+Example c20_source_nonvacuous :
+  go_ToDate32 (mkT (-304776000) 0 0) = -3528 /\
+  go_ToDateTime64 (mkT 10098259200 0 0) 3 = Some 10098259200000 /\
+  go_DateTime64_Time 0 10098259200000 3 = Some (mkT 10098259200 0 0) /\
+  go_Interval_Add (mk_go_Interval IntervalMonth 3) (mkT 1579082400 0 0) = Some (mkT 1586944800 0 0) /\
+  go_Interval_Add (mk_go_Interval IntervalQuarter 1) (mkT 1579082400 0 0) = Some (mkT 1589536800 0 0) /\
+  go_Interval_Add (mk_go_Interval 8 1) (mkT 0 0 0) = None /\
+  go_Precision_Scale 3 = 1000000 /\ go_ToIPv4 AddrZero = None /\
+  go_ToIPv4 (go_IPv4_ToIP 3232235777) = Some 3232235777.
+Proof. vm_compute. repeat split; reflexivity. Qed.
